@@ -159,6 +159,17 @@ def rule_corner_cell(prog, C, rule, classes=None):
                         cons = "%s region %d, weights %s, %s" % (name, p, w, "ignore" if ign else "propagate")
                         corner = m.corner.get(p)
                         cells = m.cell.get(p, [])
+                        if corner is not None and not cells and getattr(m, "fill", None):
+                            # the grand total of this region is set, but the fill closure - read completely, without unknown
+                            # values or unsupported statements - never stores into it under this configuration
+                            _fi2, _I2, _fr2 = m.fill
+                            complete = not any(ev.kind == "unsupported" or any(tm.contains(v, lambda x: x.op == "unknown") for v in _terms(ev)) for ev in _I2.events)
+                            stores_other = [ev for ev in _I2.events if ev.kind == "store_sub" and ev["base"].op == "unpack" and ev["base"].args[0] == tm.param("regions") and ev["index"] == tm.param("x_coords")]
+                            if complete and stores_other:
+                                C.add(rule, VIOLATED, where, cons,
+                                      "the corner (grand total) of this region is initialised, but under this configuration the fill closure never writes the region's cell (it writes %d other region cell(s)): every visited cell stays 0 and differencing puts the whole total into the common cell"
+                                      % len(stores_other), {"inputs": "any cube under this weight / missing-value configuration"})
+                                continue
                         if corner is None or not cells:
                             C.add(rule, UNDECIDED, where, cons, "corner or cell expression not found")
                             continue
@@ -453,6 +464,14 @@ def is_integral(lin):
     for k, v in lin.items():
         if v == 0:
             continue
+        if isinstance(k, tuple) and k[0] in ("ACROSSCOLUMNS", "ALLCOLUMNS") and len(k) == 2:
+            # the same terms reduced over another axis: integral exactly when they are
+            try:
+                if is_integral(dict(k[1])):
+                    continue
+            except Exception:
+                pass
+            return False
         if k == 1 or k == ("COUNT",):
             continue
         if isinstance(k, tuple) and k[0] == "SUM" and aggmodel.is_validity(k[-1]):
